@@ -422,6 +422,36 @@ func TestVerifC20RaceBodies(t *testing.T) {
 					}
 					wg2.Wait()
 				}
+				// in-process verification of the proof OBJECTS themselves - they all point to the witness's signed
+				// accumulator - by verifiers that each hold their own instance of the public key, while proving
+				// from the credential goes on.  (The holder verified its witness when it received it.)
+				if rep <= 1 && proofs[0] != nil {
+					if _, err := cred.NonRevocationWitness.SignedAccumulator.UnmarshalVerify(pk); err != nil {
+						t.Fatal(err)
+					}
+					var wg3 sync.WaitGroup
+					start3 := make(chan struct{})
+					for g := 0; g < gs; g++ {
+						g := g
+						wg3.Add(1)
+						go func() {
+							defer wg3.Done()
+							<-start3
+							if g%2 == 0 && proofs[g] != nil {
+								vpk := vfFreshPk(k)
+								if !proofs[g].Verify(vpk, vfContext, vfNonce, false) {
+									r.Violate("C20|concurrent-verification-failed|proof-objects-in-process", "", nil)
+								}
+								return
+							}
+							if _, err := cred.CreateDisclosureProof([]int{1}, nil, true, vfContext, vfNonce); err != nil {
+								r.Violate("C20|operation-failed|free-running", "proof creation next to in-process verification: "+err.Error(), nil)
+							}
+						}()
+					}
+					close(start3)
+					wg3.Wait()
+				}
 			}
 		}
 	}
